@@ -22,7 +22,8 @@ EXPLANATION = (
     "their dominating comparisons or audited; (R7) the error path of the fetch-execute loop unwinds the "
     "context states a failing statement had opened (shared with C05.R6); (R11) after every user block the next emitted instruction is preceded by a resume point (shared with C05.R2): RESUME NEXT after the last statement of the main module must not run into a subprogram body; (R12) array subscripts and bounds are refused unless castable to a numeric type (shared with C12.R9), so nothing unresolved reaches the generator."
     " (R14 = C05.R11) RESUME label leaves every active call, cutting the VM stacks back to what the outermost call recorded."
-    " (R15 = C12.R11) what the casting emitter cannot convert (arrays, records) the checker lets through by value only for a parameter of the same type - evaluated on every pair.")
+    " (R15 = C12.R11) what the casting emitter cannot convert (arrays, records) the checker lets through by value only for a parameter of the same type - evaluated on every pair."
+    " (R16) to_str_unchecked, which panics on anything but a string, is applied only to the arguments of a built-in call (context()[i], typed by the built-in's lint()), never to a variable looked up by name.")
 NOT_DECIDED = ["panic-freedom in general (arithmetic overflow in the debug profile, stack depth, panics inside std)"]
 
 PCL = labels.PCL
@@ -577,6 +578,48 @@ def r13_argument_validators_mean_what_they_say(ctx, rule="C08.R13"):
     ctx.require(rule, 5 * 3 * 10)
 
 
+def r16_unchecked_string_reads_are_argument_reads(ctx, rule="C08.R16"):
+    """`to_str_unchecked` panics on anything but a string.  The checker types the *arguments* of a built-in (its
+    lint() demands a string where run() reads one - C08.R2), so the unchecked read is sound on an argument of the
+    call: `context()[i]`.  A value that run() looks up by name in the caller's variables (FIELD variables of PUT)
+    has whatever type the program gave a variable of that name - an array, say - and has to be matched, not
+    assumed."""
+    prog = ctx.prog
+    n = 0
+    for f in sorted(prog.fns.values(), key=lambda f: f.id):
+        if f.crate != "rusty_basic" or f.body is None:
+            continue
+        pv = None
+        k = 0
+        for b, t in f.body.calls():
+            if not mir.callee_path(t).endswith("::to_str_unchecked") or not t["args"]:
+                continue
+            pv = pv or mir.Prov(f.body)
+            o = mir.strip_all(pv.of_operand(t["args"][0]))
+            n += 1
+            # context()[i] / context().variables()[i]: the i-th argument of the call
+            base = o
+            while base[0] == "field":
+                base = mir.strip_all(base[1])
+            while base[0] in ("field", "downcast"):
+                base = mir.strip_all(base[1])
+            is_arg = base[0] == "index" or (base[0] == "call" and base[1].split("::")[-1] in ("index", "index_mut"))
+            if base[0] == "call" and base[1].split("::")[-1] == "get" and base[2]:
+                # `context().variables().get(i)`: the optional i-th argument
+                is_arg = mir.origin_mentions(base[2][0], lambda x: x[0] == "call" and x[1].split("::")[-1] == "variables")
+            by_name = mir.origin_mentions(o, lambda x: x[0] == "call" and x[1].split("::")[-1] in
+                                          ("get_built_in", "get_user_defined", "get_by_name", "caller_variables"))
+            owner = (prog.enclosing_fn(f) or f).path.split("::", 1)[1]
+            key = "%s:%s%s" % (rule, owner, "#%d" % k if k else "")
+            k += 1
+            ctx.decide(is_arg and not by_name, rule, key, "%s:%s" % (f.file, t.get("ln")),
+                       "reads an argument of the call",
+                       "%s reads a value with to_str_unchecked that is not an argument of the built-in (%s): a variable "
+                       "looked up by name can be of any type (`DIM N$(1 TO 2)` and `FIELD #1, 4 AS N$` in a SUB: PUT "
+                       "panics with `Variant was not a string VArray`)" % (owner, mir.short_origin(o)[:90]))
+    ctx.require(rule, 15)
+
+
 def run(ctx):
     common.install(ctx)
     r1_traversal(ctx)
@@ -601,5 +644,6 @@ def run(ctx):
     # predicate accepts an array / a record only for a parameter of the very same type
     from .. import optables as _ot
     c12.r11_no_conversion_between_arrays(ctx, _ot.OpTables(ctx.prog), "C08.R15")
+    r16_unchecked_string_reads_are_argument_reads(ctx)
     from . import panics
     panics.r_audit(ctx, "C08.R6", scope="backend")
